@@ -9,7 +9,9 @@ from ..cfg import (CFG, explicit_raise_only, forward, forward_worlds,
                    _walk_no_nested, path_str)
 from ..lanes import (Facts, LaneInterp, LaneAlg, BV, Seg, Lin, ones, INF)
 from ..seq import cond_edge_transfer, kill_conds_on_assign
-from .. import pred
+from .. import pred, paths
+from ..normal import normalise
+from ..inline import acopy
 
 FR = "dali.frame"
 W_ = Lin({"hi": 1, "lo": -1}, 1)         # hi + 1 - lo
@@ -48,10 +50,15 @@ def check(run, repo, world):
              "big-endian encodings of the same number; equality = same "
              "width and bits")
     _own(run, repo, world, mod, c)
-    _readslice(run, mod, c)
-    _getitem(run, mod, c)
-    _setitem(run, mod, c)
-    _init(run, mod, c)
+    run.rule("R-FRAME-LANES", "slice/bit arithmetic reads and writes exactly "
+             "the stated lanes for every width; guards reject exactly the "
+             "illegal inputs (formula equivalence over path summaries)")
+    run.rule("R-FRAME-EXC", "each illegal input raises the documented "
+             "exception class (spec/frame_exceptions.json)")
+    _readslice_contract(run, world, mod, c)
+    _slice_modes(run, world, mod, c)
+    _bit_modes(run, world, mod, c)
+    _init(run, world, mod, c)
     _add_contains_views(run, world, mod, c)
 
 
@@ -165,7 +172,9 @@ def _check_guard_table(run, Q, guards, cases, parser, hyp, mod, node,
             for a in c:
                 if a[0] == "p" and a[1] not in vocab and not (
                         a[1].endswith(" == key.step") or
-                        a[1].startswith("key.step == ")):
+                        a[1].startswith("key.step == ") or
+                        a[1].startswith("value has a bit in lanes") or
+                        " >= 2**(" in a[1]):
                     raise AnalysisError(
                         "%s: guard `%s` uses a test outside the recognised "
                         "vocabulary (%s)" % (Q, unparse(st.test, 100), a[1]))
@@ -207,327 +216,87 @@ def _spec():
                                        "frame_exceptions.json")))
 
 
-def _readslice(run, mod, c):
-    run.rule("R-FRAME-LANES", "slice/bit arithmetic reads and writes exactly "
-             "the stated lanes for every width; guards reject exactly the "
-             "illegal inputs (formula equivalence)")
-    run.rule("R-FRAME-EXC", "each illegal input raises the documented "
-             "exception class (spec/frame_exceptions.json)")
-    fn = c.methods["_readslice"][1]
-    Q = FR + ".Frame._readslice"
-    spec = _spec()["_readslice"]
-    # hi / lo definitions
-    asg = {}
-    for n in ast.walk(fn):
-        if isinstance(n, ast.Assign) and len(n.targets) == 1:
-            tg = n.targets[0]
-            if isinstance(tg, ast.Name):
-                asg[tg.id] = n.value
-            elif isinstance(tg, ast.Tuple) and isinstance(
-                    n.value, ast.Tuple) and len(tg.elts) == len(
-                        n.value.elts):
-                for a, b in zip(tg.elts, n.value.elts):
-                    if isinstance(a, ast.Name):
-                        asg[a.id] = b
-    rets = [n.value for n in ast.walk(fn) if isinstance(n, ast.Return)]
+class PFacts:
+    """Ordering oracle for the lane algebra from a conjunction of
+    difference constraints (the path's own validated conditions)."""
 
-    def is_ext(e, which):
-        return isinstance(e, ast.Call) and unparse(e.func) == which and \
-            sorted(unparse(a) for a in e.args) == ["key.start", "key.stop"]
-    order_ok = False
-    if len(rets) == 1 and isinstance(rets[0], ast.Tuple) and len(
-            rets[0].elts) == 2:
-        a, b = rets[0].elts
+    def __init__(self, atoms):
+        self.atoms = [a for a in atoms if a[0] == "le"]
 
-        def res(x):
-            return asg.get(x.id, x) if isinstance(x, ast.Name) else x
-        order_ok = is_ext(res(a), "max") and is_ext(res(b), "min")
-    if not order_ok and not (len(rets) == 1 and isinstance(
-            rets[0], ast.Tuple)):
-        raise AnalysisError("%s: return form not recognised" % Q)
-    run.ob("R-FRAME-LANES", Q + "#establishes-order", order_ok,
-           "_readslice must return (max, min) of key.start / key.stop so "
-           "that [hi:lo] and [lo:hi] address the same lanes; returns %s"
-           % [unparse(r) for r in rets], where(mod, fn))
-    hi_name = unparse(rets[0].elts[0]) if isinstance(
-        rets[0].elts[0], ast.Name) else None
-    lo_name = unparse(rets[0].elts[1]) if isinstance(
-        rets[0].elts[1], ast.Name) else None
-    guards = _guards(fn.body)
-    run.floor("_readslice guards", len(guards), 4)
-    # both index orders: key.start is the larger one / the smaller one
-    for order in ("start>=stop", "stop>=start"):
-        sm = {"self._bits": "bits", "len(self)": "bits"}
-        big, small = ("key.start", "key.stop") if order == "start>=stop" \
-            else ("key.stop", "key.start")
-        sm[big] = "hi"
-        sm[small] = "lo"
-        if hi_name:
-            sm[hi_name] = "hi"
-        if lo_name:
-            sm[lo_name] = "lo"
-        sm["max(key.start, key.stop)"] = sm["max(key.stop, key.start)"] = "hi"
-        sm["min(key.start, key.stop)"] = sm["min(key.stop, key.start)"] = "lo"
-        P = pred.Parser(pred.lin_of(sm), _canon_prop)
-        hyp = [("le", "lo", "hi", 0), ("le", pred.ZERO, "bits", 1)]
-        A = pred.Parser(pred.lin_of({"lo": "lo", "hi": "hi",
-                                     "bits": "bits"}), _canon_prop)
-
-        def f(src):
-            return A.dnf(ast.parse(src, mode="eval").body)
-        cases = [
-            ("indices not int", f("not isinstance(key.start, int) or "
-                                  "not isinstance(key.stop, int)"),
-             spec["indices not int"]),
-            ("step", f("key.step != None and key.step != 1"), spec["step"]),
-            ("negative", f("lo < 0"), spec["negative"]),
-            ("beyond width", f("hi >= bits"), spec["beyond width"]),
-        ]
-        _check_guard_table(run, Q + "[" + order + "]", guards, cases, P,
-                           hyp, mod, fn, what="slice")
-
-
-def _branch(fn, kind):
-    """Body of `if isinstance(key, slice)` / `elif isinstance(key, int)`."""
-    for n in ast.walk(fn):
-        if isinstance(n, ast.If) and unparse(n.test) == \
-                "isinstance(key, %s)" % kind:
-            return n
-    raise AnalysisError("Frame.%s lost its isinstance(key, %s) branch"
-                        % (fn.name, kind))
-
-
-def _fallthrough_typeerror(fn):
-    """The path taken when key is neither a slice nor an int ends in
-    `raise TypeError`."""
-    last = fn.body[-1]
-    while isinstance(last, ast.If):
-        if not last.orelse:
+    def nonneg(self, f):
+        f = f if isinstance(f, Lin) else Lin.const(f)
+        if f.is_const():
+            return f.k >= 0
+        try:
+            a = pred._atom_from_lin(f + 1)     # f <= -1
+        except pred.Unrecognised:
             return False
-        last = last.orelse[-1]
-    return isinstance(last, ast.Raise) and _exc_name(last) == "TypeError"
+        return not pred.sat([a], self.atoms)
 
-
-def _key_parser():
-    return pred.Parser(pred.lin_of({"key": "key", "self._bits": "bits",
-                                    "len(self)": "bits"}), _canon_prop)
-
-
-def _key_cases(spec):
-    A = pred.Parser(pred.lin_of({"key": "key", "bits": "bits"}))
-    d = A.dnf(ast.parse("key < 0 or key >= bits", mode="eval").body)
-    return [("int out of range", d, spec["int out of range"])]
-
-
-def _reads_slice_result(sl):
-    for s in sl.body:
-        if isinstance(s, ast.Assign) and "self._readslice(key)" == unparse(
-                s.value) and isinstance(s.targets[0], ast.Tuple) and [
-                    unparse(x) for x in s.targets[0].elts] == ["hi", "lo"]:
+    def le(self, a, b):
+        if isinstance(b, str) and b == INF:
             return True
-    raise AnalysisError("slice branch no longer starts from `hi, lo = "
-                        "self._readslice(key)`")
+        if isinstance(a, str) and a == INF:
+            return False
+        return self.nonneg(_L(b) - _L(a))
+
+    def lt(self, a, b):
+        if isinstance(a, str) and a == INF:
+            return False
+        if isinstance(b, str) and b == INF:
+            return True
+        return self.nonneg(_L(b) - _L(a) - 1)
 
 
-def _getitem(run, mod, c):
-    fn = c.methods["__getitem__"][1]
-    Q = FR + ".Frame.__getitem__"
-    spec = _spec()["__getitem__"]
-    sl = _branch(fn, "slice")
-    _reads_slice_result(sl)
-    env = {"self._data": BV([Seg(Lin.const(0), BITS, "data", Lin.const(0))])}
-    syms = {"lo": LO, "hi": HI, "self._bits": BITS, "len(self)": BITS}
-    facts = Facts("slice")
-    li = LaneInterp(facts, dict(env), syms)
-    ret = None
-    for s in sl.body:
-        if isinstance(s, ast.Assign) and isinstance(s.targets[0], ast.Name) \
-                and unparse(s.value) != "self._readslice(key)":
-            li.env[s.targets[0].id] = li.bv(s.value)
-        if isinstance(s, ast.Return):
-            ret = li.bv(s.value)
-    want = BV([Seg(Lin.const(0), W_, "data", LO)])
-    ok = ret is not None and li.alg.equal(ret, want)
-    run.ob("R-FRAME-LANES", Q + "#slice", ok,
-           "reading [hi:lo] yields %r, expected exactly data lanes lo..hi "
-           "at positions 0..hi-lo (%r)" % (ret, want), where(mod, sl),
-           sample={"rule": "R-FRAME-LANES", "operation": "f[hi:lo]",
-                   "result_lanes": repr(ret)})
-    ib = _branch(fn, "int")
-    rets = [s for s in ib.body if isinstance(s, ast.Return)]
-    if len(rets) != 1:
-        raise AnalysisError("%s: int branch return form not recognised" % Q)
-    e = rets[0].value
-    # truth of an expression whose only possibly-set lane is data[key]
-    inner = None
-    if isinstance(e, ast.Compare) and len(e.ops) == 1 and unparse(
-            e.comparators[0]) == "0" and isinstance(
-                e.ops[0], (ast.NotEq, ast.Gt)):
-        inner = e.left
-    elif isinstance(e, ast.Call) and unparse(e.func) == "bool" and len(
-            e.args) == 1:
-        inner = e.args[0]
-    if inner is None:
-        raise AnalysisError("%s: `%s` is not a recognised bit test (x != 0, "
-                            "x > 0, bool(x))" % (Q, unparse(e)))
-    li2 = LaneInterp(Facts("bit"), {"self._data": BV([Seg(
-        Lin.const(0), BITS, "data", Lin.const(0))])},
-        {"key": KEY, "self._bits": BITS, "len(self)": BITS})
-    got = li2.alg.norm(li2.bv(inner))
-    okb = len(got.segs) == 1 and got.segs[0].src == "data" and \
-        Lin.__eq__(got.segs[0].off, KEY) and \
-        (got.segs[0].b - got.segs[0].a) == Lin.const(1)
-    run.ob("R-FRAME-LANES", Q + "#bit", okb,
-           "reading bit `key` must test exactly data lane key; tests %r"
-           % got, where(mod, ib))
-    _check_guard_table(run, Q + "[int]", _guards(ib.body), _key_cases(spec),
-                       _key_parser(), [("le", pred.ZERO, "bits", 1)], mod,
-                       ib, what="index")
-    run.ob("R-FRAME-EXC", Q + "#other key type", _fallthrough_typeerror(fn)
-           and spec["other key type"] == "TypeError",
-           "a key that is neither int nor slice must raise TypeError",
-           where(mod, fn))
+def _L(x):
+    return x if isinstance(x, Lin) else Lin.const(x)
 
 
-def _setitem(run, mod, c):
-    fn = c.methods["__setitem__"][1]
-    Q = FR + ".Frame.__setitem__"
-    cfg = CFG(fn, may_raise=explicit_raise_only, name=Q)
-    # ---- VBM: no raise reachable after a store; stores last -----------------
-    run.rule("R-FRAME-VBM", "a rejected operation leaves the frame "
-             "unchanged: no raise after a store; stores dominated by all "
-             "guards")
-    stores = [n for n in cfg.reachable if n.kind == "stmt" and isinstance(
-        n.ast, ast.Assign) and unparse(n.ast.targets[0]) in (
-            "self._data", "self._bits")]
-    run.floor("Frame.__setitem__ store sites", len(stores), 3)
-    for st in stores:
-        bad = None
-        seen, stack = set(), [m for (l, m) in st.succ]
-        while stack:
-            n = stack.pop()
-            if n.id in seen:
-                continue
-            seen.add(n.id)
-            if n.kind == "stmt" and isinstance(n.ast, ast.Raise):
-                bad = n
-            stack += [m for (l, m) in n.succ]
-        run.ob("R-FRAME-VBM", "%s#no-raise-after-store@%s" % (
-            Q, unparse(st.ast)[:40]), bad is None,
-            "an exception can be raised after the frame was modified",
-            where(mod, st))
-    # ---- slice write: lanes ---------------------------------------------------
-    sl = _branch(fn, "slice")
-    facts = Facts("slice")
-    env = {"self._data": BV([Seg(Lin.const(0), BITS, "data", Lin.const(0))]),
-           "value": BV([Seg(Lin.const(0), W_, "value", Lin.const(0))])}
-    syms = {"lo": LO, "hi": HI, "self._bits": BITS}
-    li = LaneInterp(facts, dict(env), syms)
-    final = None
-    for s in sl.body:
-        if isinstance(s, ast.Assign) and isinstance(s.targets[0], ast.Name) \
-                and "self._readslice" not in unparse(s.value):
-            li.env[s.targets[0].id] = li.bv(s.value)
-        if isinstance(s, ast.Assign) and unparse(s.targets[0]) == \
-                "self._data":
-            final = li.bv(s.value)
-    want = BV([Seg(Lin.const(0), LO, "data", Lin.const(0)),
-               Seg(LO, HI + 1, "value", Lin.const(0)),
-               Seg(HI + 1, BITS, "data", HI + 1)])
-    ok = final is not None and li.alg.equal(final, want)
-    run.ob("R-FRAME-LANES", Q + "#slice", ok,
-           "writing [hi:lo] = value produces %r; expected data on [0,lo), "
-           "value lanes 0..W-1 on [lo,hi], data on (hi,bits) and nothing "
-           "else (%r)" % (final, want), where(mod, sl),
-           sample={"rule": "R-FRAME-LANES", "operation": "f[hi:lo] = value",
-                   "result_lanes": repr(final)})
-    # ---- guards of the slice write ---------------------------------------------
-    spec = _spec()["__setitem__"]
-    covered = []        # lane intervals [a, b) of value that are rejected
-    store_line = min([s.lineno for s in sl.body if isinstance(
-        s, ast.Assign) and unparse(s.targets[0]) == "self._data"] or [0])
-    plain = []
-    fit_exc = set()
-    guards_before_store = True
-    for (t, exc, st) in _guards(sl.body):
-        if st.lineno > store_line:
-            guards_before_store = False
-        iv = _rejected_lanes(t, li, facts) if "value" in unparse(t) else None
-        if iv is not None:
-            covered += iv
-            fit_exc.add(exc)
-        else:
-            plain.append((t, exc, st))
-    A = pred.Parser(pred.lin_of({"value": "value"}), _canon_prop)
+SLICE_SYMS = {"self._bits": "bits", "len(self)": "bits",
+              "max(key.start, key.stop)": "hi",
+              "max(key.stop, key.start)": "hi",
+              "min(key.start, key.stop)": "lo",
+              "min(key.stop, key.start)": "lo", "hi": "hi", "lo": "lo",
+              "bits": "bits"}
+LEGAL_SLICE = [("le", pred.ZERO, "lo", 0), ("le", "lo", "hi", 0),
+               ("le", "hi", "bits", 1)]
+LEGAL_KEY = [("le", pred.ZERO, "key", 0), ("le", "key", "bits", 1)]
 
-    def f(src):
-        return A.dnf(ast.parse(src, mode="eval").body)
-    cases = [("value not int", f("not isinstance(value, int)"),
-              spec["value not int"]),
-             ("value negative", f("value < 0"), spec["value negative"])]
-    _check_guard_table(run, Q + "[slice]", plain, cases, A, [], mod, sl,
-                       what="value")
-    run.ob("R-FRAME-EXC", Q + "#value too big", fit_exc <= {
-        spec["value too big"]} and bool(fit_exc),
-        "an oversized value must raise %s, raises %s" % (
-            spec["value too big"], sorted(fit_exc)), where(mod, sl),
-        sample={"rule": "R-FRAME-EXC", "method": "__setitem__",
-                "case": "value too big", "raises": sorted(fit_exc)})
-    alg = LaneAlg(facts)
-    need = BV([Seg(W_, INF, "ones")])
-    cov = BV([Seg(a, b, "ones") for (a, b) in covered])
-    missing = alg.minus(need, cov) if covered else need
-    low = BV([Seg(Lin.const(0), W_, "ones")])
-    too_much = not alg.disjoint(cov, low) if covered else False
-    run.ob("R-FRAME-LANES", Q + "#fit-guard", not missing.segs and
-           not too_much and guards_before_store,
-           "the guards before a slice write must reject exactly the values "
-           "with a set bit at or above W = hi+1-lo; value lanes %r are NOT "
-           "rejected%s: such a value is written into lanes at or above the "
-           "frame's width and the frame's value leaves 0 <= value < 2^width"
-           % (missing, " and legal lanes are rejected" if too_much else ""),
-           where(mod, sl),
-           sample={"rule": "R-FRAME-LANES", "operation": "fit guard",
-                   "rejected_value_lanes": repr(cov)})
-    # ---- bit write --------------------------------------------------------------
-    ib = _branch(fn, "int")
-    li2 = LaneInterp(Facts("bit"), {"self._data": BV([Seg(
-        Lin.const(0), BITS, "data", Lin.const(0))])},
-        {"key": KEY, "self._bits": BITS})
-    setv = clrv = None
-    for n in ast.walk(ib):
-        if isinstance(n, ast.If) and unparse(n.test) == "value":
-            for s in n.body:
-                if isinstance(s, ast.Assign) and unparse(
-                        s.targets[0]) == "self._data":
-                    setv = li2.bv(s.value)
-            for s in n.orelse:
-                if isinstance(s, ast.Assign) and unparse(
-                        s.targets[0]) == "self._data":
-                    clrv = li2.bv(s.value)
-    want_set = BV([Seg(Lin.const(0), KEY, "data", Lin.const(0)),
-                   Seg(KEY, KEY + 1, "ones"),
-                   Seg(KEY + 1, BITS, "data", KEY + 1)])
-    want_clr = BV([Seg(Lin.const(0), KEY, "data", Lin.const(0)),
-                   Seg(KEY + 1, BITS, "data", KEY + 1)])
-    _check_guard_table(run, Q + "[int]", _guards(ib.body), _key_cases(spec),
-                       _key_parser(), [("le", pred.ZERO, "bits", 1)], mod,
-                       ib, what="index")
-    run.ob("R-FRAME-EXC", Q + "#other key type", _fallthrough_typeerror(fn)
-           and spec["other key type"] == "TypeError",
-           "a key that is neither int nor slice must raise TypeError",
-           where(mod, fn))
-    guard = True
-    run.ob("R-FRAME-LANES", Q + "#bit-set", setv is not None and
-           li2.alg.equal(setv, want_set) and guard,
-           "setting bit key gives %r, expected %r" % (setv, want_set),
-           where(mod, ib))
-    run.ob("R-FRAME-LANES", Q + "#bit-clear", clrv is not None and
-           li2.alg.equal(clrv, want_clr) and guard,
-           "clearing bit key gives %r, expected %r" % (clrv, want_clr),
-           where(mod, ib),
-           sample={"rule": "R-FRAME-LANES", "operation": "f[key] = False",
-                   "result_lanes": repr(clrv)})
+
+def _fit_bound(e, lin, var_ok):
+    """n if test e is a recognised spelling of `<var> >= 2**n`."""
+    if isinstance(e, ast.Compare) and len(e.ops) == 1:
+        l, op, r = e.left, e.ops[0], e.comparators[0]
+        if isinstance(l, ast.Call) and isinstance(
+                l.func, ast.Attribute) and l.func.attr == "bit_length" \
+                and var_ok(l.func.value):
+            n = lin(r)
+            if n is not None and isinstance(op, ast.Gt):
+                return unparse(l.func.value, 200), n
+            if n is not None and isinstance(op, ast.GtE):
+                return unparse(l.func.value, 200), n - 1
+        if var_ok(l) and isinstance(op, ast.GtE):
+            for pat in ("1 << ", "2 ** "):
+                if isinstance(r, ast.BinOp) and unparse(r).startswith(pat):
+                    n = lin(r.right)
+                    if n is not None:
+                        return unparse(l, 200), n
+        if var_ok(l) and isinstance(op, ast.Gt) and isinstance(
+                r, ast.BinOp) and isinstance(r.op, ast.Sub) and unparse(
+                    r.right) == "1" and isinstance(
+                        r.left, ast.BinOp) and unparse(r.left).startswith(
+                            ("1 << ", "2 ** ")):
+            n = lin(r.left.right)
+            if n is not None:
+                return unparse(l, 200), n
+        if isinstance(op, ast.NotEq) and unparse(r) == "0":
+            return _fit_bound(l, lin, var_ok)
+    if isinstance(e, ast.BinOp) and isinstance(e.op, ast.RShift) and \
+            var_ok(e.left):
+        n = lin(e.right)
+        if n is not None:
+            return unparse(e.left, 200), n
+    return None
 
 
 def _rejected_lanes(test, li, facts):
@@ -604,56 +373,419 @@ def _rejected_lanes(test, li, facts):
     return None
 
 
-def _fit_form(t, var, width_syms):
-    """Is test `t` one of the recognised spellings of `var >= 2**width`?"""
-    if isinstance(t, ast.Compare) and len(t.ops) == 1:
-        l, op, r = t.left, t.ops[0], t.comparators[0]
-        if unparse(l) == var + ".bit_length()" and isinstance(op, ast.Gt) \
-                and unparse(r) in width_syms:
-            return True
-        if unparse(l) == var and isinstance(op, ast.GtE) and unparse(r) in [
-                f % w for w in width_syms for f in ("1 << %s", "2 ** %s",
-                                                    "pow(2, %s)")]:
-            return True
-        if unparse(l) == var and isinstance(op, ast.Gt) and unparse(r) in [
-                f % w for w in width_syms for f in ("(1 << %s) - 1",
-                                                    "2 ** %s - 1")]:
-            return True
-        if isinstance(op, ast.NotEq) and unparse(r) == "0":
-            return _fit_form(l, var, width_syms)
-    if isinstance(t, ast.BinOp) and isinstance(t.op, ast.RShift) and \
-            unparse(t.left) == var and unparse(t.right) in width_syms:
-        return True
-    return False
+def _mask_fit(e, symmap, value_vars):
+    """`(value << lo) & mask` style tests: which value lanes make it true,
+    decided in the lane algebra; canonical fit text if exactly [n, inf)."""
+    if "value" not in value_vars or "value" not in unparse(e, 300):
+        return None
+    inner = e
+    if isinstance(e, ast.Compare) and len(e.ops) == 1 and isinstance(
+            e.ops[0], ast.NotEq) and unparse(e.comparators[0]) == "0":
+        inner = e.left
+    if not isinstance(inner, ast.BinOp):
+        return None
+    facts = PFacts([("le", "lo", "hi", 0)] + LEGAL_SLICE)
+    li = LaneInterp(facts, {}, {k: Lin.sym(v) for k, v in symmap.items()
+                                if v != "value"})
+    try:
+        iv = _rejected_lanes(inner, li, facts)
+    except AnalysisError:
+        return None
+    if not iv:
+        return None
+    if len(iv) == 1 and isinstance(iv[0][1], str):
+        return "value >= 2**(%r)" % (iv[0][0],)
+    return "value has a bit in lanes %r" % (iv,)
 
 
-def _init(run, mod, c):
-    fn = c.methods["__init__"][1]
+def _mk_parser(symmap, value_vars=()):
+    lin = pred.lin_of(symmap)
+
+    def prop(e):
+        fb = _fit_bound(e, lin, lambda v: unparse(v, 200) in value_vars)
+        if fb is not None:
+            return "%s >= 2**(%r)" % fb
+        mf = _mask_fit(e, symmap, value_vars)
+        if mf is not None:
+            return mf
+        return _canon_prop(e)
+    P = pred.Parser(lin, prop)
+    orig_tree = P.tree
+
+    def tree(e):
+        fb = _fit_bound(e, lin, lambda v: unparse(v, 200) in value_vars)
+        if fb is not None:
+            return ("atom", ("p", "%s >= 2**(%r)" % fb, True))
+        mf = _mask_fit(e, symmap, value_vars)
+        if mf is not None:
+            return ("atom", ("p", mf, True))
+        return orig_tree(e)
+    P.tree = tree
+    return P
+
+
+def _path_dnf(P, p_, skip=()):
+    trees = []
+    for (t, b) in p_.conds:
+        if unparse(t, 200) in skip:
+            continue
+        tr = P.tree(t)
+        trees.append(tr if b else ("not", tr))
+    return pred.dnf(("and", trees))
+
+
+def _in_mode(p_, truths):
+    for (t, b) in p_.conds:
+        k = unparse(t, 200)
+        if k in truths and truths[k] != b:
+            return False
+    return True
+
+
+def _frame_paths(world, c, name):
+    fn = normalise(c.methods[name][1], world, FR, c, aliases=False,
+                   primitives=("__init__",))
+    return fn, paths.summaries(fn)
+
+
+def _orders():
+    """key.start >= key.stop (start is hi) and key.stop > key.start: a
+    partition, so a path that orders the indices itself is feasible in
+    exactly one of them."""
+    for order, big, small, strict in (
+            ("start>=stop", "key.start", "key.stop", 0),
+            ("stop>start", "key.stop", "key.start", 1)):
+        sm = dict(SLICE_SYMS)
+        sm[big] = "hi"
+        sm[small] = "lo"
+        yield order, sm, [("le", "lo", "hi", strict)]
+
+
+def _cases_parser():
+    return pred.Parser(pred.lin_of({"lo": "lo", "hi": "hi", "bits": "bits",
+                                    "key": "key", "value": "value",
+                                    "data": "data"}), _canon_prop)
+
+
+def _f(src):
+    return _cases_parser().dnf(ast.parse(src, mode="eval").body)
+
+
+def _slice_cases(spec):
+    return [
+        ("indices not int", _f("not isinstance(key.start, int) or "
+                               "not isinstance(key.stop, int)"),
+         spec["indices not int"]),
+        ("step", _f("key.step != None and key.step != 1"), spec["step"]),
+        ("negative", _f("lo < 0"), spec["negative"]),
+        ("beyond width", _f("hi >= bits"), spec["beyond width"])]
+
+
+def _guard_table_from_paths(run, Q, ps, P, cases, hyp, mod, node, what,
+                            skip=()):
+    extra = []
+    for p_ in ps:
+        if p_.kind == "raise":
+            d = frozenset(c_ for c_ in _path_dnf(P, p_, skip)
+                          if pred.sat(c_, hyp))
+            if not d:
+                continue
+
+            class _N:       # node stand-in for messages
+                test = ast.Constant(None)
+                lineno = getattr(p_.expr, "lineno", getattr(node, "lineno",
+                                                            0))
+            n_ = _N()
+            n_.test = ast.parse(" and ".join(
+                ("(%s)" if b else "not (%s)") % unparse(t, 200)
+                for (t, b) in p_.conds if unparse(t, 200) not in skip)
+                or "True", mode="eval").body
+            extra.append((d, paths.exc_name(p_.expr), n_))
+    _check_guard_table(run, Q, [], cases, P, hyp, mod, node, what=what,
+                       extra=extra)
+
+
+def _slice_modes(run, world, mod, c):
+    """__getitem__ / __setitem__ with a slice key, and _readslice itself."""
+    spec = _spec()
+    SL = {"isinstance(key, slice)": True}
+    # ---- __getitem__[slice] -------------------------------------------------
+    fn, ps = _frame_paths(world, c, "__getitem__")
+    Q = FR + ".Frame.__getitem__"
+    sl = [p_ for p_ in ps if _in_mode(p_, SL) and any(
+        unparse(t) == "isinstance(key, slice)" for t, b in p_.conds)]
+    if not sl:
+        raise AnalysisError("%s: no path for a slice key" % Q)
+    for order, sm, oh in _orders():
+        P = _mk_parser(sm)
+        hyp = oh + [("le", pred.ZERO, "bits", 1)]
+        _guard_table_from_paths(run, "%s[slice,%s]" % (Q, order), sl, P,
+                                _slice_cases(spec["_readslice"]), hyp, mod,
+                                fn, "slice", skip=("isinstance(key, slice)",))
+        rets = [p_ for p_ in sl if p_.kind == "return"]
+        if not rets:
+            raise AnalysisError("%s: slice read returns nothing" % Q)
+        for p_ in rets:
+            d = _path_dnf(P, p_, ("isinstance(key, slice)",))
+            for conj in d:
+                if not pred.sat(conj, hyp + LEGAL_SLICE):
+                    continue
+                facts = PFacts(list(conj) + hyp + LEGAL_SLICE)
+                li = LaneInterp(facts, {"self._data": BV([Seg(
+                    Lin.const(0), BITS, "data", Lin.const(0))])},
+                    {k: Lin.sym(v) for k, v in sm.items()})
+                ret = li.bv(p_.expr)
+                want = BV([Seg(Lin.const(0), W_, "data", LO)])
+                run.ob("R-FRAME-LANES", "%s#slice[%s]" % (Q, order),
+                       li.alg.equal(ret, want),
+                       "reading [hi:lo] yields %r, expected exactly data "
+                       "lanes lo..hi at positions 0..hi-lo (%r)" % (ret,
+                                                                     want),
+                       where(mod, fn),
+                       sample={"rule": "R-FRAME-LANES", "operation":
+                               "f[hi:lo]", "result_lanes": repr(ret)}
+                       if order == "start>=stop" else None)
+    # ---- __setitem__[slice] -------------------------------------------------
+    fn, ps = _frame_paths(world, c, "__setitem__")
+    Q = FR + ".Frame.__setitem__"
+    sl = [p_ for p_ in ps if _in_mode(p_, SL) and any(
+        unparse(t) == "isinstance(key, slice)" for t, b in p_.conds)]
+    sspec = spec["__setitem__"]
+    run.rule("R-FRAME-VBM", "a rejected operation leaves the frame "
+             "unchanged: no exception after a store on any path")
+    nst = 0
+    for p_ in ps:
+        st_ = [t for (t, v) in p_.effects if t in ("self._data",
+                                                   "self._bits")]
+        nst += len(st_)
+        if p_.kind == "raise":
+            run.ob("R-FRAME-VBM", "%s#no-raise-after-store:%s" % (
+                Q, paths.exc_name(p_.expr)), not st_,
+                "%s is raised after the frame was modified (path %r)"
+                % (paths.exc_name(p_.expr), p_), where(mod, fn),
+                trivial=True)
+        run.ob("R-FRAME-LANES", Q + "#width-unchanged:%d" % id(p_),
+               "self._bits" not in st_,
+               "__setitem__ changes the frame's width", where(mod, fn),
+               trivial=True)
+    run.floor("Frame.__setitem__ storing paths", nst, 1)
+    for order, sm, oh in _orders():
+        sm = dict(sm)
+        sm["value"] = "value"
+        P = _mk_parser(sm, value_vars=("value",))
+        hyp = oh + [("le", pred.ZERO, "bits", 1)]
+        Wtxt = repr(W_)
+        cases = _slice_cases(spec["_readslice"]) + [
+            ("value not int", _f("not isinstance(value, int)"),
+             sspec["value not int"]),
+            ("value negative", _f("value < 0"), sspec["value negative"]),
+            ("value too big", frozenset([frozenset([
+                ("p", "value >= 2**(%s)" % Wtxt, True)])]),
+             sspec["value too big"])]
+        _guard_table_from_paths(run, "%s[slice,%s]" % (Q, order), sl, P,
+                                cases, hyp, mod, fn, "slice write",
+                                skip=("isinstance(key, slice)",))
+        done = [p_ for p_ in sl if p_.kind in ("fall", "return")]
+        if not done:
+            raise AnalysisError("%s: slice write never completes" % Q)
+        for p_ in done:
+            d = _path_dnf(P, p_, ("isinstance(key, slice)",))
+            final = [v for (t, v) in p_.effects if t == "self._data"]
+            for conj in d:
+                if not pred.sat(conj, hyp + LEGAL_SLICE):
+                    continue
+                facts = PFacts(list(conj) + hyp + LEGAL_SLICE)
+                li = LaneInterp(facts, {
+                    "self._data": BV([Seg(Lin.const(0), BITS, "data",
+                                          Lin.const(0))]),
+                    "value": BV([Seg(Lin.const(0), W_, "value",
+                                     Lin.const(0))])},
+                    {k: Lin.sym(v) for k, v in sm.items() if v != "value"})
+                got = li.bv(final[-1]) if final else None
+                want = BV([Seg(Lin.const(0), LO, "data", Lin.const(0)),
+                           Seg(LO, HI + 1, "value", Lin.const(0)),
+                           Seg(HI + 1, BITS, "data", HI + 1)])
+                run.ob("R-FRAME-LANES", "%s#slice[%s]" % (Q, order),
+                       got is not None and li.alg.equal(got, want),
+                       "writing [hi:lo] = value produces %r; expected data "
+                       "on [0,lo), value lanes 0..W-1 on [lo,hi], data on "
+                       "(hi,bits) and nothing else (%r)" % (got, want),
+                       where(mod, fn),
+                       sample={"rule": "R-FRAME-LANES", "operation":
+                               "f[hi:lo] = value", "result_lanes": repr(got)}
+                       if order == "start>=stop" else None)
+
+
+def _bit_modes(run, world, mod, c):
+    spec = _spec()
+    INT = {"isinstance(key, slice)": False, "isinstance(key, int)": True}
+    OTHER = {"isinstance(key, slice)": False, "isinstance(key, int)": False}
+    sm = {"key": "key", "self._bits": "bits", "len(self)": "bits",
+          "bits": "bits"}
+    skip = ("isinstance(key, slice)", "isinstance(key, int)")
+    hyp = [("le", pred.ZERO, "bits", 1)]
+    for name in ("__getitem__", "__setitem__"):
+        fn, ps = _frame_paths(world, c, name)
+        Q = FR + ".Frame." + name
+        ip = [p_ for p_ in ps if _in_mode(p_, INT)]
+        op = [p_ for p_ in ps if _in_mode(p_, OTHER)]
+        run.ob("R-FRAME-EXC", Q + "#other key type", bool(op) and all(
+            p_.kind == "raise" and paths.exc_name(p_.expr) ==
+            spec[name]["other key type"] for p_ in op),
+            "a key that is neither int nor slice must raise %s; paths: %r"
+            % (spec[name]["other key type"], op), where(mod, fn))
+        P = _mk_parser(sm)
+        cases = [("int out of range", _f("key < 0 or key >= bits"),
+                  spec[name]["int out of range"])]
+        truth_atoms = ("value", "bool(value)")
+        _guard_table_from_paths(run, Q + "[int]", ip, P, cases, hyp, mod,
+                                fn, "index", skip=skip + truth_atoms)
+        done = [p_ for p_ in ip if p_.kind != "raise"]
+        if not done:
+            raise AnalysisError("%s: no completing path for an int key" % Q)
+        facts = PFacts(hyp + LEGAL_KEY)
+        env = {"self._data": BV([Seg(Lin.const(0), BITS, "data",
+                                     Lin.const(0))])}
+        syms = {k: Lin.sym(v) for k, v in sm.items()}
+
+        def single_lane(e):
+            li = LaneInterp(facts, dict(env), dict(syms))
+            got = li.alg.norm(li.bv(e))
+            return got, (len(got.segs) == 1 and got.segs[0].src == "data"
+                         and Lin.__eq__(_L(got.segs[0].off), KEY) and
+                         (_L(got.segs[0].b) - _L(got.segs[0].a)) ==
+                         Lin.const(1))
+        if name == "__getitem__":
+            # value of the read: truth of an expression whose only possibly
+            # set lane is data[key]
+            ok, why = True, ""
+            for p_ in done:
+                e = p_.expr
+                inner, pol = None, True
+                if isinstance(e, ast.Constant) and isinstance(e.value, bool):
+                    # guard-clause form: the deciding test is on the path
+                    tests = [(t, b) for (t, b) in p_.conds if unparse(
+                        t, 200) not in skip and not _is_range_test(t)]
+                    if len(tests) != 1:
+                        raise AnalysisError("%s: constant result on a path "
+                                            "without a single bit test" % Q)
+                    inner, pol = _bool_inner(tests[0][0])
+                    pol = (pol == tests[0][1]) == e.value
+                    if not pol:
+                        ok, why = False, "result inverted on path %r" % p_
+                else:
+                    inner, pol = _bool_inner(e)
+                    if not pol:
+                        ok, why = False, "result inverted: %s" % unparse(e)
+                if inner is None:
+                    raise AnalysisError("%s: `%s` is not a recognised bit "
+                                        "test" % (Q, unparse(e)))
+                got, one = single_lane(inner)
+                if not one:
+                    ok, why = False, "tests %r" % got
+            run.ob("R-FRAME-LANES", Q + "#bit", ok,
+                   "reading bit `key` must test exactly data lane key: %s"
+                   % why, where(mod, fn))
+        else:
+            want_set = BV([Seg(Lin.const(0), KEY, "data", Lin.const(0)),
+                           Seg(KEY, KEY + 1, "ones"),
+                           Seg(KEY + 1, BITS, "data", KEY + 1)])
+            want_clr = BV([Seg(Lin.const(0), KEY, "data", Lin.const(0)),
+                           Seg(KEY + 1, BITS, "data", KEY + 1)])
+            seen = set()
+            for p_ in done:
+                tv = [b for (t, b) in p_.conds if unparse(t, 200) in
+                      truth_atoms]
+                if len(tv) != 1:
+                    raise AnalysisError(
+                        "%s: a bit write that is not decided by the truth "
+                        "of `value` alone (path %r)" % (Q, p_))
+                final = [v for (t, v) in p_.effects if t == "self._data"]
+                li = LaneInterp(facts, dict(env), dict(syms))
+                got = li.bv(final[-1]) if final else env["self._data"]
+                want = want_set if tv[0] else want_clr
+                seen.add(tv[0])
+                run.ob("R-FRAME-LANES", Q + ("#bit-set" if tv[0]
+                                             else "#bit-clear"),
+                       li.alg.equal(got, want),
+                       "%s bit key gives %r, expected %r" % (
+                           "setting" if tv[0] else "clearing", got, want),
+                       where(mod, fn),
+                       sample={"rule": "R-FRAME-LANES", "operation":
+                               "f[key] = %s" % tv[0], "result_lanes":
+                               repr(got)} if not tv[0] else None)
+            run.ob("R-FRAME-LANES", Q + "#bit-both", seen == {True, False},
+                   "both a truthy and a falsy value must be handled",
+                   where(mod, fn), trivial=True)
+
+
+def _is_range_test(t):
+    txt = unparse(t, 200)
+    return "key" in txt and ("self._bits" in txt or "len(self)" in txt or
+                             txt.startswith(("key <", "key >", "0 <")))
+
+
+def _bool_inner(e):
+    """(bit-container expression, polarity) of a boolean bit test."""
+    if isinstance(e, ast.Compare) and len(e.ops) == 1 and unparse(
+            e.comparators[0]) == "0":
+        if isinstance(e.ops[0], (ast.NotEq, ast.Gt)):
+            return e.left, True
+        if isinstance(e.ops[0], ast.Eq):
+            return e.left, False
+    if isinstance(e, ast.Call) and unparse(e.func) == "bool" and len(
+            e.args) == 1:
+        return e.args[0], True
+    if isinstance(e, ast.UnaryOp) and isinstance(e.op, ast.Not):
+        i, p = _bool_inner(e.operand)
+        return i, (not p) if i is not None else p
+    if isinstance(e, ast.BinOp):
+        return e, True
+    return None, True
+
+
+def _readslice_contract(run, world, mod, c):
+    """_readslice returns (hi, lo) with hi >= lo for either index order."""
+    fn, ps = _frame_paths(world, c, "_readslice")
+    Q = FR + ".Frame._readslice"
+    ok = True
+    why = ""
+    rets = [p_ for p_ in ps if p_.kind == "return"]
+    if not rets:
+        raise AnalysisError("%s returns nothing" % Q)
+    for order, sm, oh in _orders():
+        P = _mk_parser(sm)
+        hyp = oh
+        lin = pred.lin_of(sm)
+        for p_ in rets:
+            d = _path_dnf(P, p_)
+            if not any(pred.sat(conj, hyp) for conj in d):
+                continue
+            e = p_.expr
+            if not (isinstance(e, ast.Tuple) and len(e.elts) == 2):
+                raise AnalysisError("%s: return form not recognised" % Q)
+            a, b = lin(e.elts[0]), lin(e.elts[1])
+            if a != Lin.sym("hi") or b != Lin.sym("lo"):
+                ok = False
+                why = "for %s it returns (%s, %s)" % (
+                    order, unparse(e.elts[0]), unparse(e.elts[1]))
+    run.ob("R-FRAME-LANES", Q + "#establishes-order", ok,
+           "_readslice must return (larger index, smaller index) so that "
+           "[hi:lo] and [lo:hi] address the same lanes: %s" % why,
+           where(mod, fn))
+
+
+def _init(run, world, mod, c):
+    fn, ps = _frame_paths(world, c, "__init__")
     Q = FR + ".Frame.__init__"
     spec = _spec()["__init__"]
-    sm = {"bits": "bits", "self._bits": "bits", "self._data": "data"}
-    P = pred.Parser(pred.lin_of(sm), _canon_prop)
-    plain, extra = [], []
-    for (t, exc, st) in _guards(fn.body):
-        if _fit_form(t, "self._data", ("bits", "self._bits")):
-            extra.append((frozenset([frozenset([("p", "nofit", True)])]),
-                          exc, st))
-        else:
-            plain.append((t, exc, st))
-    A = pred.Parser(pred.lin_of({"bits": "bits", "data": "data"}),
-                    _canon_prop)
-
-    def f(src):
-        return A.dnf(ast.parse(src, mode="eval").body)
-    cases = [("bits not int", f("not isinstance(bits, int)"),
-              spec["bits not int"]),
-             ("bits < 1", f("bits < 1"), spec["bits < 1"]),
-             ("data negative", f("data < 0"), spec["data negative"]),
-             ("data too big", frozenset([frozenset([("p", "nofit", True)])]),
-              spec["data too big"])]
-    run.floor("Frame.__init__ guards", len(plain) + len(extra), 4)
-    _check_guard_table(run, Q, plain, cases, P, [], mod, fn,
-                       what="argument", extra=extra)
+    BYTES = "int.from_bytes(data, 'big')"
+    for n in ast.walk(fn):
+        if isinstance(n, ast.Call) and unparse(n.func) == "int.from_bytes":
+            BYTES = unparse(n, 200)
+    sm = {"bits": "bits", "self._bits": "bits", "data": "data", BYTES: "data",
+          "self._data": "data"}
+    P = _mk_parser(sm, value_vars=("data", BYTES, "self._data"))
     conv = False
     for n in ast.walk(fn):
         if isinstance(n, ast.Call) and unparse(n.func) == "int.from_bytes":
@@ -663,6 +795,43 @@ def _init(run, mod, c):
     run.ob("R-FRAME-VIEW", Q + "#byte-sequence-big-endian", conv,
            "a byte sequence given as initial data is read big-endian "
            "(int.from_bytes(data, 'big'))", where(mod, fn))
+    for mode, truths in (("int data", {"isinstance(data, int)": True}),
+                         ("byte sequence", {"isinstance(data, int)": False})):
+        mp = [p_ for p_ in ps if _in_mode(p_, truths)]
+        var = "data" if mode == "int data" else BYTES
+        fit = "%s >= 2**(bits)" % var
+        fitd = frozenset([frozenset([("p", fit, True)])])
+        cases = [("bits not int", _f("not isinstance(bits, int)"),
+                  spec["bits not int"]),
+                 ("bits < 1", _f("bits < 1"), spec["bits < 1"]),
+                 ("data negative", _f("data < 0"), spec["data negative"]),
+                 ("data too big", fitd, spec["data too big"])]
+        # canonical fit atom regardless of how the value is spelled
+        P2 = _mk_parser(sm, value_vars=("data", BYTES, "self._data"))
+        orig = P2.tree
+
+        def tree(e, orig=orig):
+            t = orig(e)
+            if t[0] == "atom" and t[1][0] == "p" and t[1][1].endswith(
+                    ">= 2**(bits)"):
+                return ("atom", ("p", fit, True))
+            return t
+        P2.tree = tree
+        hyp = []
+        if mode == "byte sequence":
+            # int.from_bytes never yields a negative number
+            hyp = [("le", pred.ZERO, "data", 0)]
+        _guard_table_from_paths(run, "%s[%s]" % (Q, mode), mp, P2, cases,
+                                hyp, mod, fn, "argument",
+                                skip=("isinstance(data, int)",))
+        done = [p_ for p_ in mp if p_.kind != "raise"]
+        run.ob("R-FRAME-LANES", "%s[%s]#stores" % (Q, mode), bool(done) and
+               all([unparse(v) for (t, v) in p_.effects
+                    if t == "self._bits"] == ["bits"] and
+                   [unparse(v) for (t, v) in p_.effects
+                    if t == "self._data"][-1:] == [var] for p_ in done),
+               "construction must store the width and the value it "
+               "validated", where(mod, fn), trivial=True)
     # subclasses that override __init__ go through it
     for k in c.world.class_order:
         if c in k.mro and k is not c and "__init__" in k.methods:
@@ -744,7 +913,7 @@ def _add_contains_views(run, world, mod, c):
         {"self._bits": BITS, "len(self)": BITS})
 
     def one_return(name):
-        f2 = c.methods[name][1]
+        f2 = normalise(c.methods[name][1], world, FR, c, aliases=False)
         r = _returns(f2)
         if len(r) != 1:
             raise AnalysisError("Frame.%s: expected a single return" % name)
@@ -818,30 +987,74 @@ def _add_contains_views(run, world, mod, c):
         ("p", "other._bits == self._bits", True),
         ("p", "other._data == self._data", True)])])
     eq_formula = {}
+    FRAME_TESTS = ("isinstance(other, Frame)", "isinstance(other, frame.Frame)")
     for name, const in (("__eq__", False), ("__ne__", True)):
-        f2 = c.methods[name][1]
-        rs = _returns(f2)
-        consts = [x for x in rs if isinstance(x, ast.Constant)]
-        main = [x for x in rs if not isinstance(x, ast.Constant)]
-        if len(main) != 1:
-            raise AnalysisError("Frame.%s: expected one comparison" % name)
-        m = main[0]
-        neg = False
-        if isinstance(m, ast.UnaryOp) and isinstance(m.op, ast.Not) and \
-                unparse(m.operand) in ("self == other",
-                                       "self.__eq__(other)"):
-            d = pred.neg_dnf(eq_formula["__eq__"])
-        else:
-            d = E.dnf(m)
+        f2 = acopy(c.methods[name][1])
+        body = [s_ for s_ in f2.body if not (isinstance(s_, ast.Expr) and
+                                             isinstance(s_.value,
+                                                        ast.Constant))]
+        handler_rets = []
+        if len(body) == 1 and isinstance(body[0], ast.Try):
+            tr = body[0]
+            for h in tr.handlers:
+                handler_rets += [n.value for n in ast.walk(h) if isinstance(
+                    n, ast.Return)]
+            f2.body = list(tr.body) + list(tr.orelse)
+        ps = paths.summaries(f2)
+        trees = []
+        okc = all(isinstance(x, ast.Constant) and x.value is const
+                  for x in handler_rets)
+        why = ""
+        for p_ in ps:
+            if p_.kind != "return":
+                raise AnalysisError("Frame.%s: a path without a result"
+                                    % name)
+            cs = []
+            for (t, b) in p_.conds:
+                txt = unparse(t, 200)
+                if txt in FRAME_TESTS:
+                    if not b:
+                        # not a frame at all: must be "not equal"
+                        if not (isinstance(p_.expr, ast.Constant) and
+                                p_.expr.value is const):
+                            okc, why = False, "a non-frame compares equal"
+                        cs = None
+                        break
+                    continue
+                if "__class__" in txt or "type(" in txt or \
+                        txt.startswith("isinstance(other"):
+                    okc = False
+                    why = ("the result depends on `%s`: frames of the same "
+                           "width and bits but another class compare "
+                           "unequal" % txt)
+                    cs = None
+                    break
+                tr_ = E.tree(t)
+                cs.append(tr_ if b else ("not", tr_))
+            if cs is None:
+                continue
+            e = p_.expr
+            if isinstance(e, ast.UnaryOp) and isinstance(
+                    e.op, ast.Not) and unparse(e.operand) in (
+                        "self == other", "self.__eq__(other)"):
+                # not (formula of __eq__)
+                val = ("not", ("or", [("and", [("atom", a) for a in conj])
+                                      for conj in eq_formula["__eq__"]]))
+            elif isinstance(e, ast.Constant) and isinstance(e.value, bool):
+                val = ("and", []) if e.value else ("or", [])
+            else:
+                val = E.tree(e)
+            trees.append(("and", cs + [val]))
+        d = pred.dnf(("or", trees))
         eq_formula[name] = d
         want = want_eq if name == "__eq__" else pred.neg_dnf(want_eq)
         ok, w = pred.equivalent(d, want)
-        run.ob("R-FRAME-VIEW", "%s.Frame.%s" % (FR, name), ok and all(
-            x.value is const for x in consts),
-            "%s is `%s`; equality must mean same width and same bits (%s)"
-            % (name, unparse(m), pred.show(want)), where(mod, f2))
+        run.ob("R-FRAME-VIEW", "%s.Frame.%s" % (FR, name), ok and okc,
+               "%s is `%s`; it must mean %s %s" % (
+                   name, pred.show(d), pred.show(want), why),
+               where(mod, c.methods[name][1]))
     # ---- membership ---------------------------------------------------------
-    cf = c.methods["__contains__"][1]
+    cf = normalise(c.methods["__contains__"][1], world, FR, c, aliases=False)
     got = {}
     for n in ast.walk(cf):
         if isinstance(n, ast.If) and isinstance(n.test, ast.Compare) and \
